@@ -77,7 +77,15 @@ fn chain_scenario(stages: Vec<Stage>, n: usize, batch: BatchMode, cap: usize, p:
                     a.sort();
                     b.sort();
                     let sig = if a == b { "c16-chain-reordered" } else { "c16-chain-content" };
-                    return Err(Fail::new(sig, format!("{d2}: sink holds {:?}, the iterator chain gives {:?}", v, exp)));
+                    let first = v.iter().zip(exp.iter()).position(|(x, y)| x != y);
+                    return Err(Fail::new(
+                        sig,
+                        if exp.len() > 40 {
+                            format!("{d2}: sink holds {} elements, the iterator chain gives {}; they first differ at position {:?}", v.len(), exp.len(), first)
+                        } else {
+                            format!("{d2}: sink holds {:?}, the iterator chain gives {:?}", v, exp)
+                        },
+                    ));
                 }
                 return Ok(hash_of(&r.trace.len()));
             }
@@ -174,6 +182,13 @@ fn build(tier: Tier) -> Vec<Scenario> {
             }
         }
     }
+    // more elements than a full batch (1024) and than the channels hold: order across batch
+    // boundaries and under back-pressure
+    for c in [vec![Map, Hop, Filter], vec![Hop, FlatMap, Hop, Map]] {
+        for (m, cap) in [(BatchMode::fixed(1024), 0usize), (BatchMode::adaptive(1024, Duration::from_millis(10)), 1), (BatchMode::fixed(100), 1)] {
+            out.push(chain_scenario(c.clone(), 2500, m, cap, 2, 0));
+        }
+    }
     let len = if tier == Tier::Quick { 6 } else { 7 };
     for part in 0..4i64 {
         out.push(loop_scenario(
@@ -214,7 +229,7 @@ pub fn spec() -> PropSpec {
     PropSpec {
         id: "C16",
         build,
-        rule: "(1) chains of 1-4 single-replica blocks (maps, filters, flat_maps separated by replication(One) boundaries) for six batch modes (single, fixed 1/2/1024, adaptive 2/1024 with virtual timers), channel capacity 16 and 1, inputs of 0..6 elements: in every schedule within the deviation bound (three canonical orders, early timer firings as deviations) the sink's vector equals the iterator chain, in order; (2) reorder(): all contract-respecting timestamped histories up to the length bound: output timestamps non-decreasing, multiset preserved, an element released only after a watermark >= its timestamp or the end of its iteration; non-trivial = at least 2 elements / out-of-order history",
+        rule: "(1) chains of 1-4 single-replica blocks (maps, filters, flat_maps separated by replication(One) boundaries) for six batch modes (single, fixed 1/2/1024, adaptive 2/1024 with virtual timers), channel capacity 16 and 1, inputs of 0..6 elements (and of 2500 elements for two chains under fixed 1024 / adaptive 1024 / fixed 100 with capacity 1): in every schedule within the deviation bound (three canonical orders, early timer firings as deviations) the sink's vector equals the iterator chain, in order; (2) reorder(): all contract-respecting timestamped histories up to the length bound: output timestamps non-decreasing, multiset preserved, an element released only after a watermark >= its timestamp or the end of its iteration; non-trivial = at least 2 elements / out-of-order history",
         assumptions: &["Replication::One places both blocks on host 0, so the cross-host order guarantee is C02's per-link FIFO", "deviation bound as reported"],
         exhaustive_when_uncapped: false,
         budget_s: (50, 1500),
